@@ -185,9 +185,14 @@ pub fn run_aiter(w: &[&str]) -> String {
                 Ok(it) => through(it, item::<u8>, ad, arg, reference),
                 Err(e) => Some(vec![format!("open:E:{}", dclass(&e))])
             },
-            "arrayc" => { let mut ctx = (); match d.array_iter_with::<(), u8>(&mut ctx) {
-                Ok(it) => through(it, item::<u8>, ad, arg, reference),
-                Err(e) => Some(vec![format!("open:E:{}", dclass(&e))]) } }
+            "arrayc" => {
+                // (the result is bound before the block ends: the iterator — which may have a destructor — must not outlive `ctx`)
+                let mut ctx = ();
+                let r = match d.array_iter_with::<(), u8>(&mut ctx) {
+                    Ok(it) => through(it, item::<u8>, ad, arg, reference),
+                    Err(e) => Some(vec![format!("open:E:{}", dclass(&e))]) };
+                r
+            }
             "map" => match d.map_iter::<u8, u8>() {
                 Ok(it) => through(it, kv, ad, arg, reference),
                 Err(e) => Some(vec![format!("open:E:{}", dclass(&e))])
